@@ -1,9 +1,12 @@
 package main
 
 import (
+	"bytes"
 	"context"
+	"io"
 	gofs "io/fs"
 	"os"
+	"path/filepath"
 
 	"github.com/tonistiigi/fsutil"
 	"github.com/tonistiigi/fsutil/types"
@@ -11,7 +14,66 @@ import (
 
 func init() {
 	kinds[0x1101] = run1101
+	kinds[0x1102] = run1102
 	props["C11"] = genC11
+}
+
+// input: (view includes excludes); output: (send_err recv_err hung stats_announced dest_raw opens)
+func run1102(in Sx) Sx {
+	view := SxView(in.L[0])
+	var inc, exc []string
+	for _, p := range in.L[1].L {
+		inc = append(inc, p.Str())
+	}
+	for _, p := range in.L[2].L {
+		exc = append(exc, p.Str())
+	}
+	ffs, err := fsutil.NewFilterFS(&MemFS{Roots: view}, &fsutil.FilterOpt{IncludePatterns: inc, ExcludePatterns: exc})
+	if err != nil {
+		return L(N(9), N(9), N(0), L(), L(), L())
+	}
+	work := WorkDir("c11-")
+	defer os.RemoveAll(work)
+	dest := filepath.Join(work, "dest")
+	if err := os.Mkdir(dest, 0755); err != nil {
+		panic(err)
+	}
+	res := RunTransfer(TransferCfg{Src: ffs, Dest: dest, StreamCap: 16})
+	var announced []Sx
+	for _, lp := range res.Log {
+		if lp.From == "s" && lp.P.Type == types.PACKET_STAT && lp.P.Stat != nil {
+			announced = append(announced, StatSx(lp.P.Stat))
+		}
+	}
+	snap, err := SnapshotRaw(dest, true)
+	if err != nil {
+		return L(N(9), N(9), N(0), L(), L(), L())
+	}
+	// Open every regular file of the FULL view through the same filtered FS
+	var opens []Sx
+	var rec func(dir string, ns []*MNode)
+	rec = func(dir string, ns []*MNode) {
+		for _, n := range ns {
+			p := n.Name
+			if dir != "" {
+				p = dir + "/" + n.Name
+			}
+			if os.FileMode(n.Stat.Mode)&os.ModeType == 0 {
+				rc, err := ffs.Open(p)
+				opened, same := false, false
+				if err == nil {
+					b, rerr := io.ReadAll(rc)
+					rc.Close()
+					opened = true
+					same = rerr == nil && bytes.Equal(b, n.Content)
+				}
+				opens = append(opens, L(S(p), Bool(opened), Bool(same)))
+			}
+			rec(p, n.Kids)
+		}
+	}
+	rec("", view)
+	return L(errClass(res.SendErr), errClass(res.RecvErr), Bool(res.Hung), L(announced...), RawListSx(snap), L(opens...))
 }
 
 // input: (view); output: (stats reported by the real WithHardlinkReset(MemFS).Walk, real Hardlinks validator verdict)
@@ -118,5 +180,33 @@ func genC11(g *Gen) {
 			}
 		}
 		g.Emit(0x1101, L(ViewSx(filtered)), links > 0 && dropped > 0, cls)
+	}
+
+	// end-to-end: filtered views (no '!' patterns here: the late-shadow behaviour of the incremental
+	// matcher (known finding K1) is judged by C10; with it walk and Open may legitimately differ)
+	pats := []string{"a", "b", "ab", "a-b", "c", "d", "e", "a/*", "a/**", "*", "**/a", "?", "a*", "*/b", "d/e", "[a-c]", "a/b"}
+	m := g.Vol(150, 3000)
+	for i := 0; i < m; i++ {
+		r := g.Rng
+		o := TreeOpts{MaxEntries: 4 + r.Intn(12), MaxDepth: 3, Names: small, Types: r.Chance(30), HardLinks: true, Owners: true}
+		v := GenView(r, o)
+		var inc, exc []Sx
+		for k := r.Intn(3); k > 0; k-- {
+			inc = append(inc, S(Pick(r, pats)))
+		}
+		for k := r.Intn(3); k > 0; k-- {
+			exc = append(exc, S(Pick(r, pats)))
+		}
+		cls := "e2e-unfiltered"
+		if len(inc)+len(exc) > 0 {
+			cls = "e2e-filtered"
+		}
+		links := 0
+		for _, st := range WalkEntries(v) {
+			if st.Linkname != "" && os.FileMode(st.Mode)&os.ModeSymlink == 0 {
+				links++
+			}
+		}
+		g.Emit(0x1102, L(ViewSx(v), L(inc...), L(exc...)), links > 0 && len(inc)+len(exc) > 0, cls)
 	}
 }
